@@ -525,6 +525,68 @@ fn is_whitespace(token: &str) -> bool {
     token.chars().all(char::is_whitespace)
 }
 
+/// Verification hooks (only with `--cfg text2num_verif`): step the scanner one token
+/// at a time and project its abstract state. The linearization point of each scanner
+/// action is the return of `push`.
+#[cfg(text2num_verif)]
+#[derive(Debug, Clone, PartialEq)]
+pub struct VerifScannerState {
+    pub has_number: bool,
+    pub is_dec: bool,
+    pub int_part: String,
+    pub int_frozen: bool,
+    pub int_is_ordinal: bool,
+    pub dec_part: String,
+    pub match_start: usize,
+    pub match_end: usize,
+    pub queued: usize,
+    pub on_hold: bool,
+    /// "card", "ord" or "none"
+    pub last_kind: &'static str,
+    pub has_previous: bool,
+}
+
+#[cfg(text2num_verif)]
+impl<L, T, I> FindNumbers<'_, L, T, I>
+where
+    L: LangInterpreter,
+    T: Token,
+    I: Iterator<Item = (usize, T)>,
+{
+    pub fn verif_push(&mut self, pos: usize, token: T) {
+        self.push(pos, token)
+    }
+
+    pub fn verif_finalize(&mut self) {
+        self.finalize()
+    }
+
+    pub fn verif_pop(&mut self) -> Option<Occurence> {
+        self.tracker.pop()
+    }
+
+    pub fn verif_state(&self) -> VerifScannerState {
+        VerifScannerState {
+            has_number: self.parser.has_number(),
+            is_dec: self.parser.is_dec,
+            int_part: self.parser.int_part.to_string(),
+            int_frozen: self.parser.int_part.verif_is_frozen(),
+            int_is_ordinal: self.parser.int_part.is_ordinal(),
+            dec_part: self.parser.dec_part.to_string(),
+            match_start: self.tracker.match_start,
+            match_end: self.tracker.match_end,
+            queued: self.tracker.matches.len(),
+            on_hold: self.tracker.on_hold.is_some(),
+            last_kind: match self.tracker.last_contiguous_match {
+                MatchKind::Cardinal => "card",
+                MatchKind::Ordinal => "ord",
+                MatchKind::None => "none",
+            },
+            has_previous: self.previous.is_some(),
+        }
+    }
+}
+
 #[cfg(test)]
 mod tests {
     use super::*;
